@@ -27,7 +27,10 @@ RULE = ("specs for the five kinds: generated from the CRD schema itself (every o
         "bounds, empty spec, non-dict specs; Workflows whose steps run cached Logic and hold 1-3 step references "
         "per expression field (nameless index keys mixed with later/unknown/own labels); ordered pairs in one "
         "process (a valid spec, then each twin that differs only bool<->int<->float by an ==-equal value at a "
-        "schema-typed path); CEL text in expression-bearing fields comes from a grammar-based "
+        "schema-typed path); a type confusion (unhashable list/object, null, bool, number, str) at EVERY schema "
+        "position of every kind; sequences of 3-6 definitions offered to the real cache in one process, later ones "
+        "referencing earlier ones that read their inputs through odd-but-valid CEL (both orders, with re-offer; "
+        "re-prepares by the cache observed); CEL text in expression-bearing fields comes from a grammar-based "
         "generator (all member/index/call/macro/literal/unary/conditional shapes) plus unparseable text. "
         "Each spec is validated (real vs model), prepared directly and through prepare_and_cache with a cache "
         "holding prepared Functions. Non-trivial = spec is a non-empty dict; distinct by (kind, spec)")
